@@ -52,14 +52,13 @@ def extract(ctx):
     text = re.sub(r'char\s+buffer\[bufferSize\]\s*=\s*\{\};', 'char buffer[bufferSize];', text)
     text = re.sub(r'gzFile\s+fileHandle\s*=\s*\{\};', 'gzFile fileHandle;', text)
     log['R4 aggregate initialisers `= {}` of buffer / fileHandle dropped (object state is nondeterministic under the invariant)'] = 2
-    if ctx.tier == 'quick':
-        # R20 (scaling, quick tier only): the buffer constant is replaced by VX_BUFSZ = 64; the logic is uniform in the constant
-        # (static fact: reserveSize < bufferSize); harnesses run this way are labelled bounded.  The thorough tier keeps 65536.
-        text, n20 = re.subn(r'bufferSize\s*=\s*65536;', 'bufferSize = VX_BUFSZ;', text)
-        log['R20 bufferSize = 65536 -> VX_BUFSZ (=64) in the quick tier'] = n20
-        if n20 != 1:
-            raise ExtractError('R20 did not fire exactly once')
-    ctx.write('extracted.hpp', '#include "vx_gz.h"\n' + text)
+    # R20 (scaling): the buffer constant becomes the macro VX_BUFSZ (default: the real value).  Harnesses that define a smaller value
+    # are labelled bounded; the logic is uniform in the constant (static fact: reserveSize < bufferSize).
+    text, n20 = re.subn(r'bufferSize\s*=\s*65536;', 'bufferSize = VX_BUFSZ;', text)
+    log['R20 bufferSize = 65536 -> VX_BUFSZ (macro; 65536 unless a harness scales it)'] = n20
+    if n20 != 1:
+        raise ExtractError('R20 did not fire exactly once')
+    ctx.write('extracted.hpp', '#ifndef VX_BUFSZ\n#define VX_BUFSZ 65536\n#endif\n#include "vx_gz.h"\n' + text)
     ctx.rewrites.update(log)
     ctx.dropped += ['gzfstreambuf::open (std::string, gzopen), destructor, move constructor; class gzfstream (std::ios plumbing)',
                     'zlib (gzwrite/gzread/gzclose/inflate/deflate): external library, assumed to store and return bytes faithfully']
@@ -70,8 +69,6 @@ def harnesses(ctx):
     c = [os.path.join(HERE, 'contracts.c')]
     G = 'souffle::gzfstream::internal::gzfstreambuf::'
     quick = ctx.tier == 'quick'
-    D = ['VX_BUFSZ=64'] if quick else []
-    B = {'buffer_size': 64, 'note': 'gzfstreambuf::bufferSize scaled from 65536 to 64 (R20); the thorough tier checks the real constant'} if quick else None
     hs = [
         Harness('gzbuf.layout', 'harness_layout', cpp=cpp, c=c, unwind=None, must_have=['layout'], clause='C mirror struct has the layout of the extracted class'),
         Harness('gzbuf.construct', 'harness_construct', cpp=cpp, c=c, enforce='h_gz_construct', unwind=None, must_have=['postcondition'], object_bits=10,
@@ -86,9 +83,16 @@ def harnesses(ctx):
                 clause='underflow() returns the next byte of the decompressed stream without consuming it and keeps the buffer invariant', funcs=[G + 'underflow']),
     ]
     for h in hs:
-        h.defines = list(h.defines) + D
-        h.bounded = B
-        if not quick:
+        # thorough: the real constant 65536 for layout/constructor/sync/close (decided in minutes); overflow/underflow index the buffer
+        # symbolically and exceed an hour at 65536 on every back end, so they are scaled to 1024 there (64 in the quick tier)
+        if quick:
+            h.defines = list(h.defines) + ['VX_BUFSZ=64']
+            h.bounded = {'buffer_size': 64, 'note': 'gzfstreambuf::bufferSize scaled from 65536 to 64 (R20)'}
+        elif h.name in ('gzbuf.overflow', 'gzbuf.underflow'):
+            h.defines = list(h.defines) + ['VX_BUFSZ=1024']
+            h.bounded = {'buffer_size': 1024, 'note': 'gzfstreambuf::bufferSize scaled from 65536 to 1024 (R20)'}
+            h.timeout = 3400
+        else:
             h.timeout = 3400
     return hs
 
